@@ -94,11 +94,30 @@ pub fn run_query_short(bytes: &[u8], q: &Query) -> Result<Vec<Entry>, String> {
     a
 }
 
+thread_local! {
+    /// number of entries the file under query is known to hold (set by `check_query*` from the
+    /// model); a compressed file can hold far more entries than bytes
+    static KNOWN_ENTRIES: std::cell::Cell<usize> = const { std::cell::Cell::new(0) };
+}
+
+/// An iterator yielding more entries than this does not terminate: the known number of entries of
+/// the file, or (when unknown) what an uncompressed file of that length could hold, plus slack.
+fn scan_limit(file_len: usize) -> usize {
+    std::cmp::max(file_len / 2, KNOWN_ENTRIES.with(|c| c.get())) + 16
+}
+
+pub fn with_known_entries<T>(n: usize, f: impl FnOnce() -> T) -> T {
+    let old = KNOWN_ENTRIES.with(|c| c.replace(n));
+    let r = f();
+    KNOWN_ENTRIES.with(|c| c.set(old));
+    r
+}
+
 fn run_query_on<R: std::io::Read + std::io::Seek + Clone>(mk: impl Fn() -> R, file_len: usize, q: &Query) -> Result<Vec<Entry>, String> {
     // every stored entry takes at least two bytes of the file: an iterator that yields more than
     // that many entries does not terminate (reported as such, quickly)
     #[allow(non_snake_case)]
-    let SCAN_LIMIT: usize = file_len / 2 + 16;
+    let SCAN_LIMIT: usize = scan_limit(file_len);
     let r = guarded(|| -> Result<Vec<Entry>, String> {
         let e = |e: grenad::Error| format!("error: {e}");
         let reader = Reader::new(mk()).map_err(e)?;
@@ -247,7 +266,7 @@ impl<R: std::io::Read + std::io::Seek> Stepper<R> {
 /// the model says, since every result is a function of the file and the query only.
 pub fn check_pair_shared_position(bytes: &[u8], m: &Model, qa: &Query, qb: &Query) -> Result<usize, String> {
     use std::cell::RefCell;
-    let limit = bytes.len() / 2 + 16;
+    let limit = std::cmp::max(bytes.len() / 2, m.len()) + 16;
     let r = guarded(|| -> Result<usize, String> {
         let shared = crate::c06::SharedPos(std::rc::Rc::new(RefCell::new(std::io::Cursor::new(bytes.to_vec()))));
         let (Some(mut a), Some(mut b)) = (Stepper::open(shared.clone(), qa)?, Stepper::open(shared.clone(), qb)?) else { return Ok(0) };
@@ -352,13 +371,13 @@ pub fn describe_result(r: &[Entry]) -> String {
 
 /// `check_query` over a short-reading, interrupting source.
 pub fn check_query_short(bytes: &[u8], m: &Model, q: &Query) -> Result<usize, String> {
-    check_result(run_query_short(bytes, q).map_err(|e| format!("{} over a source serving short and interrupted reads -> {e}", q.brief()))?, m, q)
+    check_result(with_known_entries(m.len(), || run_query_short(bytes, q)).map_err(|e| format!("{} over a source serving short and interrupted reads -> {e}", q.brief()))?, m, q)
         .map_err(|e| format!("over a source serving short and interrupted reads: {e}"))
 }
 
 /// Compares the real answer with the model. Ok(number of entries yielded) or Err(message).
 pub fn check_query(bytes: &[u8], m: &Model, q: &Query) -> Result<usize, String> {
-    let got = run_query(bytes, q).map_err(|e| format!("{} -> {e}", q.brief()))?;
+    let got = with_known_entries(m.len(), || run_query(bytes, q)).map_err(|e| format!("{} -> {e}", q.brief()))?;
     check_result(got, m, q)
 }
 
